@@ -319,16 +319,21 @@ where
                 &mut None,
             );
             if new_laidx > laidx {
+                // If the cost of this repair sequence can no longer be represented, it is so
+                // expensive that it isn't worth considering.
+                let Some(cf) = n
+                    .cf
+                    .checked_add(u16::from((self.parser.token_cost)(tidx)))
+                else {
+                    continue;
+                };
                 let nn = PathFNode {
                     pstack: n_pstack,
                     laidx: n.laidx,
                     repairs: n
                         .repairs
                         .child(RepairMerge::Repair(Repair::InsertTerm(tidx))),
-                    cf: n
-                        .cf
-                        .checked_add(u16::from((self.parser.token_cost)(tidx)))
-                        .unwrap(),
+                    cf,
                 };
                 nbrs.push((nn.cf, nn));
             }
@@ -342,11 +347,14 @@ where
 
         let la_tidx = self.parser.next_tidx(n.laidx);
         let cost = (self.parser.token_cost)(la_tidx);
+        let Some(cf) = n.cf.checked_add(u16::from(cost)) else {
+            return;
+        };
         let nn = PathFNode {
             pstack: n.pstack.clone(),
             laidx: n.laidx + 1,
             repairs: n.repairs.child(RepairMerge::Repair(Repair::Delete)),
-            cf: n.cf.checked_add(u16::from(cost)).unwrap(),
+            cf,
         };
         nbrs.push((nn.cf, nn));
     }
